@@ -11,6 +11,7 @@ VERIF = '/verif'
 REPO = os.environ.get('VERIF_REPO', '/repo')
 BUILD = os.environ.get('VERIF_BUILD', os.path.join(VERIF, 'build'))
 SPEC = os.path.join(VERIF, 'spec')
+EVID = os.environ.get('VERIF_EVIDENCE', os.path.join(VERIF, 'evidence'))   # self-tests on mutated copies write elsewhere
 JAR = '/opt/veriftools/tla/tla2tools.jar:/opt/veriftools/tla/CommunityModules-deps.jar'
 NCPU = os.cpu_count() or 4
 
@@ -156,11 +157,11 @@ class Evidence:
             self.cov['samples'].append(s)
 
     def write(self):
-        os.makedirs(os.path.join(VERIF, 'evidence'), exist_ok=True)
+        os.makedirs(EVID, exist_ok=True)
         doc = {'property_id': self.pid, 'tier': self.tier, 'seed': seed(), 'level': self.level,
                'coverage': self.cov, 'assumptions': self.assumptions,
                'wall_s': round(time.time() - self.t0, 1), 'violations': self.violations}
-        with open(os.path.join(VERIF, 'evidence', self.pid + '.json'), 'w') as f:
+        with open(os.path.join(EVID, self.pid + '.json'), 'w') as f:
             json.dump(doc, f, indent=1, sort_keys=True)
             f.write('\n')
 
@@ -202,7 +203,7 @@ class Verdict:
         self.ev.violations = len(self.new)
         if not self.new:
             return 0
-        rdir = os.path.join(VERIF, 'evidence', 'replays')
+        rdir = os.path.join(EVID, 'replays')
         os.makedirs(rdir, exist_ok=True)
         for i, (key, what, replay) in enumerate(self.new[:5]):
             path = os.path.join(rdir, '%s-%d-%d.json' % (self.pid, seed(), i))
